@@ -62,37 +62,37 @@ PROPS = {
     "C13": dict(engine="e1", quick=2500, thorough=60000, level="exploration",
                 text="Cyclic programs whose block members use cycle_result; expected = fallback for every node on a cycle of the input-determined call graph (SCC analysis in the reference), body value over those results elsewhere; all entry orders within a revision, and histories that form/break cycles. One genuine defect is recorded (known-findings.txt) and matched by its own diagnosis class; every other mismatch is a violation.",
                 note="The single-revision class is free of the recorded finding's trigger; the history class reports it as KNOWN-FINDING."),
-    "C14": dict(parts=[dict(engine="e1", quick=4000, thorough=150000), dict(engine="e3", quick=1000, thorough=30000)], level="exploration",
+    "C14": dict(parts=[dict(engine="e1", quick=4000, thorough=150000), dict(engine="e3", quick=5000, thorough=120000)], level="exploration",
                 text="Cyclic programs whose block mixes functions without recovery and q_fix; per request: a cycle panic is required on a fresh database when the from-scratch DFS re-enters a non-recovering function, allowed whenever such a function lies on a reachable cycle, otherwise the least-fixpoint value is required; after a panic the same revision may report PropagatedPanic for poisoned heads; later revisions and unrelated nodes = reference. (single-thread part; the multi-thread part runs on E3)",
                 note="Hang detection single-threaded = the run returns; cross-thread part pending E3."),
     "C15": dict(engine="e1", quick=6000, thorough=100000, level="exploration",
                 text="Fixpoint programs with an input-guarded non-monotone step: guard on => the request ends in the bounded 'too many cycle iterations' panic or converges, never exceeding iteration 200; unrelated nodes = reference; after the guard is switched off the same nodes = least fixpoint in later revisions.",
                 note="Values returned while the guard is on are not compared (order-dependent for non-monotone systems)."),
-    "C08": dict(level="exploration", parts=[dict(engine="e3", quick=800, thorough=30000), dict(engine="e1", quick=6000, thorough=100000)],
+    "C08": dict(level="exploration", parts=[dict(engine="e3", quick=6000, thorough=150000), dict(engine="e1", quick=6000, thorough=100000)],
                 text="Threads intern overlapping small values of It1/It2/It3/ItInf concurrently, directly and inside queries, over joined revisions, under the seeded baton scheduler (random / PCT / round-robin, spurious condvar wake-ups); per revision: equal data <=> equal handle across all threads and queries, fields read back. Single-handle part (E1): canonicity, identity kept across revisions for values interned in every revision.",
                 note="E3 replaces the sync primitives by the scheduler's (sequentially consistent interleavings only)."),
-    "C16": dict(level="exploration", parts=[dict(engine="e3", quick=800, thorough=30000)],
+    "C16": dict(level="exploration", parts=[dict(engine="e3", quick=6000, thorough=150000)],
                 text="2-4 reader threads (one clone each) request nodes of generated acyclic programs with shared sub-queries under seeded schedules; every value = reference, every thread terminates (deadlock = no runnable thread, livelock = step bound), joined writes between rounds.",
                 note="Schedules are sampled (random with stay bias, PCT depth<=3/5, round robin), not enumerated; SC interleavings only."),
-    "C17": dict(level="exploration", parts=[dict(engine="e3", quick=800, thorough=30000)],
+    "C17": dict(level="exploration", parts=[dict(engine="e3", quick=6000, thorough=150000)],
                 text="Same runs as C16 over 2-3 revisions; monitor over the global event log: at most one WillExecute per (function, key) per revision across all threads.",
                 note="Programs are acyclic, fault-free, cancellation-free, eviction-free by construction."),
-    "C18": dict(level="exploration", parts=[dict(engine="e3", quick=800, thorough=30000)],
+    "C18": dict(level="exploration", parts=[dict(engine="e3", quick=6000, thorough=150000)],
                 text="2-4 threads enter generated fixpoint / fallback cycles (nested, conditional) at different members under seeded schedules; every value = least fixpoint / SCC fallback reference, all threads terminate.",
                 note="Fallback programs are explored within one revision only (recorded C13 finding needs a later revision)."),
-    "C19": dict(level="exploration", parts=[dict(engine="e3", quick=800, thorough=30000)],
+    "C19": dict(level="exploration", parts=[dict(engine="e3", quick=6000, thorough=150000)],
                 text="Trace validation: every E3 run (reader, cross-thread cycle, writer-cancellation, token-cancellation and panic-with-waiters scenarios) records the operations of the dependency graph and of claim release through a feature-gated hook; an independent executable model of the protocol replays the trace: every wait is woken exactly once and resumes with that result, no wake-up reaches a non-waiting thread, the thread wait-for graph (with edges re-pointed by lock transfers) stays acyclic after every insertion, each wake-up result is justified by the release (or ownership hand-over) that caused it, nothing is left waiting at quiescence.",
                 note="The exhaustive model check named in the property's quantifier is outside this technique family and is not claimed; the claim is trace validation over all explored schedules."),
-    "C20": dict(level="exploration", parts=[dict(engine="e3", quick=800, thorough=30000)],
+    "C20": dict(level="exploration", parts=[dict(engine="e3", quick=6000, thorough=150000)],
                 text="Reader threads run generated programs (acyclic and fixpoint) while the main thread performs one write (input write, synthetic write, set_lru_capacity, trigger_lru_eviction, trigger_cancellation) at a scheduler-chosen moment; readers drop their clone when done or cancelled: the writer must terminate, every reader value = reference of the pre-write revision, every reader panic is a Cancelled (PendingWrite, or PropagatedPanic for readers waiting on a cancelled reader), after the write everything = reference of the new inputs.",
                 note="Which cancellation payload a waiting reader sees is not constrained by the property; only value freshness and writer progress are checked."),
-    "C21": dict(level="exploration", parts=[dict(engine="e3", quick=800, thorough=30000)],
+    "C21": dict(level="exploration", parts=[dict(engine="e3", quick=6000, thorough=150000)],
                 text="A controller cancels reader tokens at scheduler-chosen moments (including inside fixpoint cycles and while other readers wait on the cancelled computation): at most one Cancelled::Local per cancel() and only on that handle, other readers and later requests on the handle return reference values, no deadlock.",
                 note="Moment of cancellation is a number of controller yields, i.e. sampled."),
-    "C24": dict(level="exploration", parts=[dict(engine="e3", quick=800, thorough=30000)],
+    "C24": dict(level="exploration", parts=[dict(engine="e3", quick=6000, thorough=150000)],
                 text="Threads create inputs, tracked structs (through queries on distinct keys) and interned values concurrently while handles are cloned and dropped; ids of inputs pairwise distinct, tracked-struct ids distinct per (creator, ident), every id reads back the fields it was created with.",
                 note="Page recycling is exercised through clone/drop of handles; the small-page knob is not built."),
-    "C22": dict(level="fault_enumeration", parts=[dict(engine="e1", quick=100, thorough=6000), dict(engine="e3", quick=500, thorough=20000)],
+    "C22": dict(level="fault_enumeration", parts=[dict(engine="e1", quick=100, thorough=6000), dict(engine="e3", quick=4000, thorough=100000)],
                 text="Fault enumeration (E1): every generated base history is first run fault-free to count user callbacks by class (body op, V::eq, V::hash, cycle_fn, cycle_initial/cycle_result, event callback); it is then re-run with a panic injected at every callback of the rare classes and a sample of body ops. Oracle: the panic reaches the caller of that step, the step is retried (after a new revision for poisoned cycle members) and every later result = reference; a process abort (double panic) is reported from the worker's seed file. Concurrent part (E3): a panic at a random callback while other threads request the same or dependent nodes: waiters get PropagatedPanic or a correct value, never hang.",
                 note="One genuine defect was repaired (fix: commit f6eb44f), one is recorded (known-findings.txt: stale-output deletion interrupted by an event-callback panic)."),
     "C23": dict(level="exploration", parts=[dict(engine="e1", quick=2500, thorough=60000)],
